@@ -64,7 +64,7 @@ func TestVerifC20Debug(t *testing.T) {
 		t.Fatal(err)
 	}
 	s0 := s
-	s0.Tamper = nil
+	s0.Tamper, s0.Then, s0.Hist = nil, nil, vkHistAnchored(s.Hist)
 	b := w.run(w.off, s0)
 	base := &vkBase{offRcode: b.reply.Rcode, offSOA: hasSOA(b.reply.Ns)}
 	p := w.runPair(s, base)
